@@ -9,14 +9,16 @@ def main(tier):
     if quick:
         c.run_family('plain', 'c05.py', 'graph', args=['--n=3', '--edges=1'], per_case_timeout=30, chunk=12, nsamples=2)
         c.run_family('plain', 'c05.py', 'variant', args=['--n=2'], per_case_timeout=20, chunk=60, nsamples=1)
+        c.run_family('plain', 'c05.py', 'variant2', args=['--n=3', '--edges=1'], per_case_timeout=20, chunk=60, nsamples=1)
     else:
         c.run_family('plain', 'c05.py', 'graph', args=['--n=3', '--edges=4'], per_case_timeout=30, chunk=64, nsamples=2)
         c.run_family('plain', 'c05.py', 'variant', args=['--n=3', '--edges=2'], per_case_timeout=20, chunk=200, nsamples=1)
+        c.run_family('plain', 'c05.py', 'variant2', args=['--n=3', '--edges=2'], per_case_timeout=20, chunk=200, nsamples=1)
     return c.finish(
         rule='every dependency graph on n <= 3 variables (definition kind of each variable in {initial value, explicit equation, ODE, implicit equation, implicit equation with an initial guess (reading nothing), member of ONE coupled system of >= 2 implicit equations with initial guesses} x every read set over the other '
              'variables and the variable of integration, explicit definitions acyclic; quick: at most 1 read edge for n = 3, thorough: at most 4) x every placement of the variables over two '
              'connected components; each case analyses the model under 9 transformations (component / variable / equation order, three renamings incl. a twin that borrows the name of a '
-             'different variable); variants: each equation dropped, each equation duplicated, each state initial value dropped; judged = analyses compared with ground truth, '
+             'different variable); variants: each equation dropped, each equation duplicated, each state initial value dropped; variant2: every pair of such defects of different kinds on two variables that no chain of reads connects (under + over must be unsuitably constrained, under + under underconstrained), under three listing orders; judged = analyses compared with ground truth, '
              'well-formedness rules and cross-transformation invariance; the identity transformation is also compiled, run (C and Python) and compared with reference values at two evaluation points: after the usual call sequence, and after the states were moved as an integrator would and ONLY computeVariables was called',
         assumptions=[
             'roles follow the documentation of AnalyserVariable::Type: initial value only = constant; explicit equation over constants = computed constant; anything depending on a state or the VOI = algebraic; '
